@@ -225,6 +225,9 @@ class Computed:
         # we can unsubscribe from everything on each parent
         for parent in self.parents:
             parent.unobserve(All(), All(), self._set_dirty)
+        # forget the remembered values as well: the evaluation that follows
+        # registers what it reads
+        self.parents.clear()
 
     def __call__(self):
         global CURRENT_COMPUTED  # noqa: PLW0603
